@@ -25,10 +25,20 @@ def main():
         except Exception as e:  # noqa: BLE001
             return "escape", e
 
+    kept = {}
+
+    def plain(v):
+        if isinstance(v, list):
+            return [plain(x) for x in v]
+        if isinstance(v, dict):
+            return {str(k): plain(x) for k, x in v.items()}
+        return repr(v)
+
     def do_eval(prog, b):
         keys, objs = list(b), dict(b)
+        snap = {k: plain(v) for k, v in b.items()}
         kd, r = outcome(lambda: prog.evaluate(b))
-        intact = list(b) == keys and all(b[k] is objs[k] for k in b)
+        intact = list(b) == keys and all(b[k] is objs[k] for k in b) and all(plain(b[k]) == snap[k] for k in b)
         if kd == "value":
             v = repr(r) if not isinstance(r, (dict,)) or type(r).__name__ == "MapType" else f"<{type(r).__name__}>"
         elif kd == "error":
@@ -36,6 +46,18 @@ def main():
         else:
             v = type(r).__name__
         return {"kind": kd, "value": v, "intact": intact}
+
+    def bindings_of(st):
+        if st.get("keep") and st["keep"] in kept:
+            return kept[st["keep"]]
+        b = {n: ct.IntType(vals[f"{st['vars']}_{n.replace('.', '_')}"]) for n in st["names"]}
+        if st.get("mapvar"):
+            b = {st["mapvar"]: ct.MapType({ct.StringType("k"): b[st["names"][0]]})}
+        if st.get("listvar"):
+            b = {st["listvar"]: ct.ListType([b[st["names"][0]], ct.IntType(2)])}
+        if st.get("keep"):
+            kept[st["keep"]] = b
+        return b
 
     for st in hist:
         if st["op"] == "env":
@@ -48,8 +70,7 @@ def main():
             if pk != "value":
                 out = {"kind": "construction-" + pk, "value": type(p).__name__, "intact": True}
                 continue
-            b = {n: ct.IntType(vals[f"{st['vars']}_{n.replace('.', '_')}"]) for n in st["names"]}
-            out = do_eval(p, b)
+            out = do_eval(p, bindings_of(st))
         else:
             if st["op"] == "session":
                 envs[st["env"]] = mkenv(st)
